@@ -1703,5 +1703,7 @@ func TestVerifC07(t *testing.T) {
 	kit.Run(t, "C07", famIndep, kit.N(800, 12000), runIndep)
 	kit.Run(t, "C07", famIndepWide, kit.N(24, 400), runIndepWide)
 	kit.Run(t, "C07", famRmLife, kit.N(4000, 80000), runLife)
+	kit.Run(t, "C07", famSfShapes, kit.N(1200, 24000), func(c *kit.Case) { runBurst(c, famSfShapes) })
+	kit.Run(t, "C07", famRmShapes, kit.N(600, 12000), func(c *kit.Case) { runBurst(c, famRmShapes) })
 	kit.End()
 }
